@@ -9,6 +9,7 @@ function plus one rounding; it records every point at which it is called.
 from __future__ import annotations
 
 import math
+import os
 from fractions import Fraction
 from typing import Any
 
@@ -63,10 +64,17 @@ def eval_poly_c(poly, z: list[tuple[Fraction, Fraction]]) -> tuple[Fraction, Fra
 class PolyFunction:
     """Vector polynomial function R^n -> R^m recording its call points."""
 
-    def __init__(self, polys, scalar_out: bool = False, record: bool = True) -> None:
+    def _log(self, re, im) -> None:
+        if self.record_fd is not None:
+            line = ",".join(str(v) for v in re) + "|" + ",".join(str(v) for v in im) + "\n"
+            os.write(self.record_fd, line.encode())
+
+    def __init__(self, polys, scalar_out: bool = False, record: bool = True, record_fd: int | None = None) -> None:
         self.polys = polys
         self.scalar_out = scalar_out
         self.record = record
+        # file descriptor (O_APPEND) shared with forked workers: call points of a multiprocessing run
+        self.record_fd = record_fd
         self.calls: list[tuple[tuple[Fraction, ...], tuple[Fraction, ...]]] = []
         self.inexact = 0
         self.fmax = Fraction(0)
@@ -77,6 +85,7 @@ class PolyFunction:
             z = [(_F(v.real), _F(v.imag)) for v in x]
             if self.record:
                 self.calls.append((tuple(a for a, _ in z), tuple(b for _, b in z)))
+            self._log([a for a, _ in z], [b for _, b in z])
             out = []
             for p in self.polys:
                 re, im = eval_poly_c(p, z)
@@ -90,6 +99,7 @@ class PolyFunction:
             xs = [_F(v) for v in x]
             if self.record:
                 self.calls.append((tuple(xs), tuple(Fraction(0) for _ in xs)))
+            self._log(xs, [Fraction(0) for _ in xs])
             out = []
             for p in self.polys:
                 v = eval_poly(p, xs)
@@ -101,6 +111,19 @@ class PolyFunction:
         if self.scalar_out:
             return res[0]
         return res
+
+
+def read_call_log(path: str):
+    """Call points written by `PolyFunction._log` (possibly from several processes)."""
+    calls = []
+    with open(path) as fh:
+        for line in fh:
+            line = line.strip()
+            if not line:
+                continue
+            re, im = line.split("|")
+            calls.append((tuple(Fraction(t) for t in re.split(",")), tuple(Fraction(t) for t in im.split(","))))
+    return calls
 
 
 class PolyDiscipline(Discipline):
